@@ -296,26 +296,20 @@ def rule_r4(facts, col):
                     "generated eof() does not test input stream(s) %s: block retires while they still hold data" % missing,
                     {"inputs": ins, "tested": sorted(called)})
             continue
-        # every `_0 = true` must lie behind the true edge of every eof() result
-        true_defs = [bb for bb, si, e in assigns_to_return(body) if not is_const(peel(e), False)]
+        # with the result of any one input's eof() forced to false, no path may return anything but false
+        # (explicit-state search over the bool locals: `a && b`, `let all = ..; all || false`, early returns alike)
         problems = []
         for f, cbb in called.items():
-            dst = body.term(cbb)["dst"]["l"]
-            # find the switch testing this result
-            sw = None
-            for s in range(body.n):
-                t = body.term(s)
-                if t["k"] == "switch":
-                    e = peel(switch_discr_expr(body, s))
-                    if e.k == "call" and e.bb == cbb:
-                        sw = s
-            if sw is None:
-                problems.append("result of %s.eof() is not branched on" % f)
-                continue
-            bt = bool_edge_targets(body, sw)
-            for tb in true_defs:
-                if not must_pass_edge(body, tb, (sw, bt[0])):
-                    problems.append("a non-false result is reachable without %s.eof() being true" % f)
+            bad_ret = []
+
+            def seen(bb, v, bad_ret=bad_ret):
+                if body.term(bb)["k"] == "return" and v.get(0) is not False:
+                    bad_ret.append(bb)
+            r, edges = flag_search(body, [0], call_results={cbb: False}, on_state=seen)
+            if edges is None:
+                problems.append("eof() too large for the path search")
+            elif bad_ret:
+                problems.append("a non-false result is reachable although %s.eof() is false" % f)
         if problems:
             col.bad("C04.R4", key, body.where(), "; ".join(sorted(set(problems))), {"inputs": ins})
         else:
